@@ -46,8 +46,9 @@ class SingleValueRawTokenModel(base.RawTokenModel, RWValue[_V]):
 
     @value.setter
     def value(self, value: _V) -> None:
+        raw_text = self._format_value(value)
         self._value = value
-        self._raw_text = self._format_value(value)
+        self._update_raw_text(raw_text)
 
     @classmethod
     @abc.abstractmethod
